@@ -539,6 +539,26 @@ fn s2_references(dir: &str) {
             runner.run(move || scenario_s2(true, Some((vi, launched))));
         }
     }
+    // O7: a command delta launched itself is reported as launched — rendering the same input
+    // must give the same bytes whether delta launched the producer (and the background scan found
+    // something else or nothing) or the background scan found the producer.
+    let refs = REFS.lock().unwrap();
+    if let Some(m) = refs.as_ref() {
+        for v in VARIANTS {
+            let a = m.get(&format!("{}:false", v.name));
+            let b = m.get(&format!("{}:true", v.name));
+            if let (Some(a), Some(b)) = (a, b) {
+                assert!(
+                    a == b,
+                    "O7: variant {}: the input renders differently when delta launched `{}` itself than when the background scan found that command:\n--- found by the scan ---\n{}\n--- launched by delta ---\n{}",
+                    v.name,
+                    v.real_cmd.join(" "),
+                    String::from_utf8_lossy(a),
+                    String::from_utf8_lossy(b)
+                );
+            }
+        }
+    }
 }
 
 fn run_worker(scenario: &str, sched: &str, seed: u64, iters: usize, dir: &str, cap: u64) -> i32 {
@@ -684,7 +704,7 @@ fn oracle_of(msg: &str) -> String {
     if msg.contains("exceeded max_steps") || msg.contains("max_steps") {
         return "O4-livelock".into();
     }
-    for o in ["O1", "O2b", "O2", "O3", "O4", "O5", "O6"] {
+    for o in ["O1", "O2b", "O2", "O3", "O4", "O5", "O6", "O7"] {
         if msg.contains(&format!("{}:", o)) {
             return o.into();
         }
